@@ -36,6 +36,7 @@ ASSUMPTIONS = [
     "integer experiment seed; deterministic components (as C01)",
     "every generated triple is evaluable when no fault is injected (as C01)",
     "the solo reference run is an in-process run of Experiment itself (one triple, fresh objects) - the evaluators are trusted to C06",
+    "a learner that cannot be deep-copied (owns a lock) and is listed in >= 2 triples cannot be evaluated from a pristine copy: the error must be logged per triple and no rows recorded (in-process only; such an object cannot be pickled for workers)",
     "a fault in params construction is not tied to a triple: all triples must still be recorded; an evaluator's params fault is swallowed by SafeEvaluator by design and is not generated",
     "the log is required to contain the fault marker at least once per failing triple; wording and multiplicity beyond that are not asserted",
     "a learner listed in exactly one triple may be trained in place by an in-process run (documented behaviour pinned by coba's tests); only learners listed in >= 2 triples are required to stay pristine",
@@ -130,9 +131,40 @@ def permutation(n, swaps):
             idx[i], idx[j] = idx[j], idx[i]
     return idx
 
+def run_uncopyable(case, fault, desc):
+    """A learner that cannot be deep-copied, in-process. Where a pristine copy is needed (listed in >= 2 triples) none can be
+    made: the TypeError is reported for each of those triples, they have no rows (never rows from a shared or in-place object),
+    the listed object stays untouched; every other triple is solo-equal. Listed once, it is evaluated like any other learner."""
+    built = G.build(desc)
+    target = [i for i, l in enumerate(desc["learners"]) if l.get("uncopyable")]
+    o = run_mode(built, {"mode": "inproc", "t": case["exec"].get("t", 0)})
+    what = "inproc run with an un-deep-copyable learner"
+    require(o.error is None, f"{what}: run() itself raised {type(o.error).__name__}: {o.error}")
+    snap = G.snapshot(o.result)
+    counts = built.learner_counts()
+    failing = [k for k, it in enumerate(built.index_triples) if it[1] in target and counts[it[1]] >= 2]
+    lock_lines = [l for l in o.log if "lock" in l]
+    bad = [l for l in G.unexpected_failures(o.log) if l not in lock_lines]
+    require(not bad, f"{what}: an evaluation that should succeed raised", log=[l[-300:] for l in bad[:2]])
+    for k in failing:
+        got = G.triple_rows(snap, built.ids[k])
+        require(not got, f"{what}: no pristine copy of learner #{built.index_triples[k][1]} can be made for triple #{k}, yet {len(got)} rows were recorded", ids=built.ids[k])
+    require(len(lock_lines) >= len(failing), f"{what}: {len(failing)} evaluation(s) could not copy their learner but the log reports {len(lock_lines)}", log=[l[-200:] for l in o.log][:3])
+    for k, (it, ids) in enumerate(zip(built.index_triples, built.ids)):
+        if k in failing: continue
+        ref = solo_reference(desc, it)
+        got = G.triple_rows(snap, ids)
+        require(len(got) == len(ref["rows"]) and all(G.rows_eq(a, b) for a, b in zip(got, ref["rows"])),
+                f"{what}: rows of triple #{k} (env {it[0]}, learner {it[1]}, evaluator {it[2]}) differ from evaluating a fresh twin of that triple alone",
+                ids=ids, n_multi=len(got), n_solo=len(ref["rows"]))
+    pristine_check(desc, built, what)
+    case["_stats"] = (len(failing), len(built.index_triples))
+
 def run_faults(case):
     fault = dict(case["fault"], msg=MARK + "-" + case["fault"]["kind"])
     desc = G.apply_fault(case["desc"], fault)
+    if fault["kind"] == "lrn_uncopyable" and any(l.get("uncopyable") for l in desc["learners"]):
+        return run_uncopyable(case, fault, desc)
     ex = case["exec"]
     built = G.build(desc)
     o = run_mode(built, ex)
@@ -207,6 +239,12 @@ def fault_cases(draw, tier, modes=("inproc", "inproc", "sim")):
     if capable and any(op[0] == "batch" for g in desc["groups"] for op in g["ops"]) and draw(st.integers(0, 9)) < 6:
         fault = {"kind": draw(st.sampled_from(["lrn_predict_b", "lrn_learn_b", "lrn_learn_b"])), "target": draw(st.sampled_from(capable)),
                  "at": draw(st.sampled_from([1, 1, 1, 2]))}
+    # a learner that cannot be deep-copied (in-process only: it cannot be pickled for workers either)
+    hist = [i for i, l in enumerate(desc["learners"]) if l["kind"] == "history"]
+    if hist and "real" not in modes and draw(st.integers(0, 9)) < 1:
+        shared = [i for i in hist if i in G.shared_learners(desc)] or hist
+        return {"desc": desc, "exec": {"mode": "inproc", "t": draw(st.sampled_from([0, 0, 1, 2]))},
+                "fault": {"kind": "lrn_uncopyable", "target": draw(st.sampled_from(shared)), "at": 0}}
     return {"desc": desc, "exec": draw(exec_cfg(modes)), "fault": fault}
 
 @st.composite
